@@ -136,6 +136,19 @@ def compare(case, impl, model):
                 if [e.get("name"), e.get("cat")] != row[1:3]:
                     disc.append(f"rank {r} row {row[0]} decodes to {row[1:3]}, the file has {[e.get('name'), e.get('cat')]}")
                     break
+        inc = base.get("incremental")
+        if isinstance(inc, str):
+            disc.append(f"incremental loading (parse_single_rank, then parse_multiple_ranks) failed: {inc}")
+        elif inc is not None:
+            if not inc.get("ids_stable"):
+                disc.append("incremental loading: ids assigned while loading an earlier rank changed when later ranks were added")
+            for r, rk in case["ranks"].items():
+                evs = rk["events"]
+                for row in inc["rows"].get(str(r), []):
+                    e = evs[row[0]]
+                    if [e.get("name"), e.get("cat")] != row[1:3]:
+                        disc.append(f"incremental loading: rank {r} row {row[0]} decodes to {row[1:3]}, the file has {[e.get('name'), e.get('cat')]}")
+                        break
         for o in outs[1:]:
             res = o["result"]
             if "crash" in res:
